@@ -659,6 +659,108 @@ func ruleC09EOF(c *Ctx, r *Rep) {
 			return true
 		})
 	}
+	// the token type Lex returns is 0 only at the end of input: goyacc takes the token type 0 for $end, so a byte of the
+	// source returned as its own token type (`return int(ch)`) must be known not to be NUL
+	if fd := c.Decl(c.Gojq, "lexer.Lex"); fd != nil {
+		isZero := func(e ast.Expr) bool {
+			v, ok := constInt(info, e)
+			return ok && v == 0
+		}
+		walkStack(fd.Body, func(m ast.Node, stack []ast.Node) bool {
+			rs, ok := m.(*ast.ReturnStmt)
+			if !ok || len(rs.Results) != 1 {
+				return true
+			}
+			conv, ok := unparen(rs.Results[0]).(*ast.CallExpr)
+			if !ok || len(conv.Args) != 1 {
+				return true
+			}
+			if tv, ok := info.Types[conv.Fun]; !ok || !tv.IsType() {
+				return true
+			}
+			id, ok := unparen(conv.Args[0]).(*ast.Ident)
+			if !ok {
+				return true
+			}
+			obj := info.ObjectOf(id)
+			if b, ok := obj.Type().Underlying().(*types.Basic); !ok || b.Kind() != types.Uint8 {
+				return true
+			}
+			n++
+			// an earlier statement of an enclosing list leaves when the byte is 0, or an enclosing condition excludes it
+			excluded := false
+			isObj := func(e ast.Expr) bool { x, ok := unparen(e).(*ast.Ident); return ok && info.ObjectOf(x) == obj }
+			zeroTest := func(cond ast.Expr, wantZero bool) bool { // cond holds ⇒ (byte == 0) == wantZero
+				b, ok := unparen(cond).(*ast.BinaryExpr)
+				if !ok {
+					return false
+				}
+				if (isObj(b.X) && isZero(b.Y)) || (isObj(b.Y) && isZero(b.X)) {
+					return (b.Op == token.EQL) == wantZero && (b.Op == token.EQL || b.Op == token.NEQ)
+				}
+				return false
+			}
+			for i, anc := range stack {
+				var child ast.Node = rs
+				if i+1 < len(stack) {
+					child = stack[i+1]
+				}
+				if ifs, ok := anc.(*ast.IfStmt); ok {
+					if child == ast.Node(ifs.Body) && zeroTest(ifs.Cond, false) {
+						excluded = true
+					}
+					if ifs.Else != nil && child == ast.Node(ifs.Else) && zeroTest(ifs.Cond, true) {
+						excluded = true
+					}
+				}
+				var list []ast.Stmt
+				switch b := anc.(type) {
+				case *ast.BlockStmt:
+					list = b.List
+				case *ast.CaseClause:
+					list = b.Body
+				}
+				for _, st := range list {
+					if ast.Node(st) == child {
+						break
+					}
+					if ifs, ok := st.(*ast.IfStmt); ok && ifs.Else == nil && len(ifs.Body.List) > 0 && zeroTest(ifs.Cond, true) {
+						if _, ok := ifs.Body.List[len(ifs.Body.List)-1].(*ast.ReturnStmt); ok {
+							excluded = true
+						}
+					}
+					// a switch on the byte with a `case 0:` arm that returns
+					if sw, ok := st.(*ast.SwitchStmt); ok && sw.Tag != nil && isObj(sw.Tag) {
+						_ = sw
+					}
+				}
+				// this return sits after a switch over the byte one of whose arms is `case 0` and returns
+				if sw, ok := anc.(*ast.SwitchStmt); ok && sw.Tag != nil && isObj(sw.Tag) {
+					_ = sw
+				}
+			}
+			// or: the function's switch over the byte has an arm for 0 that returns (then the fall-through return never sees 0)
+			ast.Inspect(fd.Body, func(q ast.Node) bool {
+				sw, ok := q.(*ast.SwitchStmt)
+				if !ok || sw.Tag == nil || !isObj(sw.Tag) || sw.End() > rs.Pos() {
+					return true
+				}
+				for _, s := range sw.Body.List {
+					cc := s.(*ast.CaseClause)
+					for _, e := range cc.List {
+						if isZero(e) && len(cc.Body) > 0 {
+							if _, ok := cc.Body[len(cc.Body)-1].(*ast.ReturnStmt); ok {
+								excluded = true
+							}
+						}
+					}
+				}
+				return true
+			})
+			r.Check(excluded, "lexer.Lex:return "+c.Src(rs.Results[0]), rs.Pos(), "Lex returns the source byte %s as its own token type only where the byte is known not to be NUL: %v — goyacc reads the token type 0 as the end of input, so Parse(\"1\\x00| 2 garbage ((\") yields the query `1` and the rest is silently dropped", id.Name, excluded)
+			return true
+		})
+	}
 	if n < 5 {
 		r.Undecided("census", token.NoPos, "only %d uses of peek() in comparisons found in the lexer", n)
 		return
